@@ -131,6 +131,30 @@ def classify_missing(decl, view, missing_idx):
     return out
 
 
+def classify_unsound(decl, view, s, t):
+    """Witness class of a drawn connection s -> t that TLC reports as following no dependency."""
+    data = [d for d in decl["deps"] if d["kind"] == "data"]
+
+    def is_open(c):
+        return view.kind[c] == "graph" and c in view.exp and view.visible(c)
+
+    for d in data:
+        grp = [e for e in data if e["grp"] == d["grp"]]
+        # the edge leaves a representative of the producer and ends inside the consumer's container
+        if is_open(d["via"]) and view.inside(t, d["via"]) and (s == view.rep(d["p"]) or s in view.anc(d["p"])):
+            if d["rin"]:
+                return K_RENAMED_IN          # the renamed value is routed to an entry point, not to its consumer
+            cons = {e["c"] for e in grp}
+            if any(view.inside(m, t) and d["val"] in view.ins[m] and not any(view.inside(c, m) for c in cons) for m in view.par):
+                return K_SCOPE               # t uses the same name for another value
+        # the edge ends at a representative of the consumer and starts inside the producer's container
+        if is_open(d["src"]) and view.inside(s, d["src"]) and (t == view.rep(d["c"]) or t in view.anc(d["c"])):
+            prods = {e["p"] for e in grp}
+            if any(view.inside(m, s) and d["val"] in view.outs[m] and not any(view.inside(q, m) for q in prods) for m in view.par):
+                return K_SCOPE
+    return "sound"
+
+
 def classify(rec, rd, res):
     """[(class, detail)] for one failing rendering result."""
     decl = rec["decl"]
@@ -141,14 +165,7 @@ def classify(rec, rd, res):
     cm = classify_missing(decl, view, missing)
     found += [(k, {"missing": d}) for k, d in cm]
     for s, t in det["unsound"]:
-        klass = "sound"
-        for k, d in cm:
-            # the misplaced end of an edge whose intended end is reported missing
-            if k in (K_RENAMED_IN, K_SCOPE) and view.inside(t, d["via"]) and (s == view.rep(d["p"]) or s in view.anc(d["p"])):
-                klass = k
-            if k == K_SCOPE and view.inside(s, d["src"]) and (t == view.rep(d["c"]) or t in view.anc(d["c"])):
-                klass = k
-        found.append((klass, {"unsound": [s, t]}))
+        found.append((classify_unsound(decl, view, s, t), {"unsound": [s, t]}))
     for e in det["badEndpoint"]:
         klass = "self-consistent:undeclared-endpoint"
         if rd["src"] == "mm" and rd["sep"] == 1 and any(
